@@ -49,6 +49,8 @@ func c16(r *core.Run) {
 		return
 	}
 	c01Enqueue(r, a, e)
+	r.Rule("H1", "hand-over to the next run: in the stop sequence every write of a per-run field (connection, in-channel, registry, work queue) comes before the atomic store of the stopped state - that store is what publishes the fields to a Serve that wins the stopped->starting CAS on another goroutine; a write after it races with the new run's initialisation and can wipe the new connection", 2)
+	c16ReleaseBeforeStopped(r, "H1", a, p.FuncsOfPkg(""))
 	c01Funnel(r, "G1", a, p.FuncsOfPkg(""))
 	root := p.FuncsOfPkg("")
 	firstGo := firstWorkerStart(p, a)
@@ -70,7 +72,7 @@ func c16(r *core.Run) {
 		if isConfigFn(ac.Fn) {
 			continue
 		}
-		if ac.Fn == a.Serve && firstGo != nil && core.Dominates(ac.Instr, firstGo) {
+		if beforeWorkers(p, a, ac.Instr, firstGo) {
 			continue // initialisation, ordered before every other thread of the run
 		}
 		if freshBase(ac.Addr, ac.Instr) {
@@ -546,4 +548,48 @@ func nonNilSlice(v ssa.Value, depth int) bool {
 		return n > 0
 	}
 	return false
+}
+
+// c16ReleaseBeforeStopped: no write of a per-run field in the stop function is
+// reachable from its store of the stopped state.
+func c16ReleaseBeforeStopped(r *core.Run, rule string, a *svcAnchors, root []*ssa.Function) {
+	p := r.P
+	ops, _ := stateOps(root, a)
+	var started int64 = -1
+	for _, op := range ops {
+		if op.Op == "store" && op.Fn == a.Serve {
+			started = op.New
+		}
+	}
+	var shutdown *ssa.Function
+	for _, op := range ops {
+		if op.Op == "cas" && op.Old == started {
+			shutdown = op.Fn
+		}
+	}
+	if shutdown == nil {
+		r.Unres(rule, "shutdown", "no function performs the stop transition")
+		return
+	}
+	var storeStopped ssa.Instruction
+	for _, op := range ops {
+		if op.Fn == shutdown && op.Op == "store" {
+			storeStopped = op.Instr
+		}
+	}
+	perRun := func(f core.Field) bool {
+		return f == a.NC || f == a.InCh || f == a.RWork || f == a.WorkQueue || f == a.WorkBuf
+	}
+	for _, ac := range core.FieldAccesses(p.Helpers(shutdown), perRun) {
+		if !ac.Write {
+			continue
+		}
+		ok := storeStopped != nil
+		for _, site := range p.Lift(ac.Instr, shutdown) {
+			if storeStopped != nil && core.Reaches(storeStopped, site) {
+				ok = false
+			}
+		}
+		r.Check(ok, rule, core.FuncName(ac.Fn), "write("+a.label(ac.F)+")-before-Store(stopped)", p.InstrPos(ac.Instr), "the field is written before the stopped state is published", "the field is written after the stopped state was stored: a Serve on another goroutine that wins the stopped->starting CAS initialises the same field concurrently (write/write race), and this write can clear the new run's value")
+	}
 }
